@@ -1051,7 +1051,7 @@ class Key(object):
         self.key_format = None
         self.is_private = None
 
-        if not import_key:
+        if not import_key and import_key != 0:
             import_key = random.SystemRandom().randint(1, secp256k1_n - 1)
             self.key_format = 'decimal'
             networks_extracted = network
@@ -1786,7 +1786,7 @@ class HDKey(Key):
         #     raise BKeyError("Please specify both key and chain, use import_key attribute "
         #                     "or use simple Key class instead")
         if not key:
-            if not import_key:
+            if not import_key and import_key != 0:
                 # Generate new Master Key
                 seed = os.urandom(64)
                 key, chain = self._key_derivation(seed)
